@@ -275,6 +275,23 @@ func c20Embeds() []c20Embed {
 	}
 	return []c20Embed{
 		{"MarshalJSON", func(n ap.Item) { _, _ = ap.MarshalJSON(mk(n)) }},
+		// a list of exactly one member in an item-valued property takes the "compact" encoder path
+		{"MarshalJSON(one-member list in item property)", func(n ap.Item) {
+			a := mk(nil)
+			a.Attachment, a.InReplyTo, a.URL, a.Actor, a.Object = ap.ItemCollection{n}, ap.ItemCollection{n}, ap.ItemCollection{n}, ap.ItemCollection{n}, ap.ItemCollection{n}
+			_, _ = a.MarshalJSON()
+			_, _ = ap.ItemCollection{n}.MarshalJSON()
+			_, _ = ap.GobEncode(a)
+		}},
+		// collection-path helpers on a valid value whose own collection property holds the nil-like item
+		{"CollectionPath.IRI/Of(property nil-like)", func(n ap.Item) {
+			o := &ap.Object{ID: "https://example.com/o", Type: ap.NoteType, Likes: n, Shares: n, Replies: n}
+			ac := &ap.Actor{ID: "https://example.com/a", Type: ap.PersonType, Inbox: n, Outbox: n, Following: n, Followers: n, Liked: n, Likes: n}
+			for _, p := range []ap.CollectionPath{ap.Likes, ap.Shares, ap.Replies, ap.Inbox, ap.Outbox, ap.Following, ap.Followers, ap.Liked} {
+				_, _ = p.IRI(o), p.Of(o)
+				_, _ = p.IRI(ac), p.Of(ac)
+			}
+		}},
 		{"GobEncode", func(n ap.Item) { _, _ = ap.GobEncode(mk(n)) }},
 		{"ItemsEqual", func(n ap.Item) { _ = ap.ItemsEqual(mk(n), mk(n)) }},
 		{"IsNil/NotEmpty", func(n ap.Item) { _ = ap.IsNil(mk(n)); _ = ap.NotEmpty(mk(n)) }},
